@@ -465,7 +465,7 @@ def replay_trace(ctx, path):
         rp = json.load(fh)
     p = os.path.join(ctx.scratch, "replay.ndjson")
     write_ndjson(p, rp["run"])
-    ok, info = ctx.tlc_trace(rp["trace_spec"], p, cfg=rp.get("cfg"))
+    ok, info = ctx.tlc_trace(rp["trace_spec"], p, cfg=rp.get("cfg"), env=rp.get("env"))
     if ok:
         print("replay: trace ACCEPTED by %s" % rp["trace_spec"])
     else:
